@@ -523,6 +523,12 @@ func genHeadingDoc(r *Rng) []byte {
 	n := r.Range(1, 8)
 	if r.Chance(1, 10) {
 		n = r.Range(20, 70) // many headings: id tables grow and rehash, suffixes reach two digits
+		if rs := r.Split("two-digit-suffix"); rs.Chance(1, 2) {
+			// one text many times, together with LITERAL headings that slug to its two-digit
+			// suffixed ids (generated "t-10" meets written "t 10")
+			t := pick(rs, []string{"a", "step", "heading", "x y", "日本 a"})
+			pool = []string{t, t, t, t, t, t, t + " 10", t + "-11", t + " 1", t + "-12-1", t + " 9"}
+		}
 	}
 	if r.Chance(1, 5) {
 		// long heading texts (slugs of 64, 128, 256+ bytes) that are equal or differ only late
